@@ -338,8 +338,8 @@ func checkCase(c Case) error {
 			}
 		}
 		// (s) one reader asked several times, also for a selection of sheets: every answer is a fresh reader's
-		// (every fifth workbook: each question costs a reader of its own)
-		if crc32.ChecksumIEEE(data)%5 != 0 {
+		// (every eighth workbook: each question costs a reader of its own)
+		if crc32.ChecksumIEEE(data)%8 != 0 {
 			return nil
 		}
 		type ask struct {
